@@ -338,6 +338,11 @@ class C04(CoreCheck):
     assumptions = ["the clock is monotone; oversleep bounds are checked only when the clock was not advanced without iv_invalidate_now "
                    "(documented obligation of the caller)"]
 
+    def sibling_stages(self):
+        # iv_timer.c at populations beyond the 16 timers of the core scenarios (heap + radix tree): the C05 machinery
+        import c05
+        return [("C05", c05.C05)]
+
     def gen_cases(self, ctx, rng, n):
         cases = CoreCheck.gen_cases(self, ctx, rng, n)
         # heap traffic with the full population of 16 timers: register many with scattered expiries, cancel interior /
@@ -680,6 +685,11 @@ class C15(CoreCheck):
             "unknown tokens, prefixes / extensions of method names, over-long tokens, every kind of whitespace, empty, unset) for which "
             "the real library (harness/method_smoke.c) must select the method Core/MethodSel.v `select` computes; and the virtual "
             "kernel's assumptions probed against Linux (harness/vk_smoke.c)")
+
+    def sibling_stages(self):
+        # C15 anchors iv_fd_pump.c (splice missing -> read/write fall-back): both transfer modes are driven by the C17 machinery
+        import c17
+        return [("C17", c17.C17)]
 
     def cross_body(self, rng):
         """order-independent scenario (one user descriptor, ms-multiple timers) run on all four methods"""
